@@ -187,13 +187,14 @@ Example mapped_F14d_ok :
   = Ok (VObj n_Tb [(k_t, VStr n_Tb); (k_x, VInt 1%Z); (k_y, VInt 2%Z)]).
 Proof. vm_compute. reflexivity. Qed.
 
-(* F14e: Union[A, dict[str,int]] with {q:1}: a conforming payload of the map variant is rejected *)
+(* F14e (fixed): Union[A, dict[str,int]] with {q:1} — the typed map variant is now tried after the
+   dataclass variants failed; the old witness meets the spec *)
 Definition u_F14e := TUnion None [tA; TMap TInt].
 Definition j_F14e := JObj [(k_q, JInt 1%Z)].
-Lemma refuted_F14e :
-  conforms (nth 1 [tA; TMap TInt] TNone) j_F14e = true /\ safe u_F14e j_F14e = false /\
-  structure u_F14e j_F14e = Err /\ ~ lossless u_F14e j_F14e.
-Proof. refute. Qed.
+Lemma regression_F14e :
+  conforms (nth 1 [tA; TMap TInt] TNone) j_F14e = true /\ safe u_F14e j_F14e = true /\
+  structure u_F14e j_F14e = Ok (VDict [(k_q, VInt 1%Z)]) /\ approx (unstructure (VDict [(k_q, VInt 1%Z)])) j_F14e = true.
+Proof. repeat split; vm_compute; reflexivity. Qed.
 
 (* ------------------------------------------------------------------------------------- *)
 (* Names for the nested fixpoints of the model (convertible with them)                     *)
@@ -502,7 +503,12 @@ Proof.
   - rewrite (none_may_accept_try is_dc vs (JObj kv) Hdc Edc).
     destruct (existsb is_any_map vs).
     + exists (raw (JObj kv)). split; [reflexivity|]. rewrite unstructure_raw. apply approx_refl. exact H.
-    + destruct (existsb is_dc vs); [discriminate|]. apply Hothers. exact H.
+    + destruct (existsb is_dc vs); [|apply Hothers; exact H].
+      assert (Htm : forall v, In v vs -> is_tmap v = true -> may_accept v (JObj kv) = false ->
+                    structure v (JObj kv) = Err).
+      { intros v _ Ht Hm. destruct v; try discriminate. }
+      destruct (first_safe_try is_tmap vs (JObj kv) HF Htm H) as [v [Hv Ha]].
+      rewrite Hv. exists v. split; [reflexivity|exact Ha].
 Qed.
 
 Theorem safe_lossless : forall t, good t.
